@@ -11,6 +11,7 @@ pub mod c13;
 pub mod c14;
 pub mod c17;
 pub mod c18;
+pub mod c19;
 pub mod c21;
 pub mod c23;
 pub mod c24;
@@ -26,6 +27,7 @@ pub fn all() -> Vec<PropDef> {
         c14::def(),
         c17::def(),
         c18::def(),
+        c19::def(),
         c21::def(),
         c23::def(),
         c24::def(),
